@@ -366,4 +366,4 @@ def run_property(name, tier, seed, replay=None):
                      ent.get("assumptions", []) + ["see coverage.trusted_base"])
     return rc
 
-from . import runtime_props, gen_props, front_props, conc_props  # noqa: E402,F401  (register properties)
+from . import runtime_props, gen_props, front_props, conc_props, tool_props  # noqa: E402,F401  (register properties)
